@@ -2,6 +2,7 @@ import Monorail.Driver.Util
 import Monorail.Spec.C03
 import Monorail.Spec.C10
 import Monorail.Model.Kahn
+import Monorail.Model.Dfs
 open Lean
 namespace Monorail.Driver
 
@@ -32,7 +33,9 @@ def handleDag (j : Json) : Except String Json := do
   let g : Graph := ⟨adj⟩
   let base := [("model", jGroupsRes (groups g roots)), ("closure", jNats (closure g roots)),
     -- the concrete counter/queue loop: comparable with the implementation including the order inside groups
-    ("kahn", jGroupsRes (kahn g (closure g roots)))]
+    ("kahn", jGroupsRes (kahn g (closure g roots))),
+    -- the whole code path: the concrete depth-first visibility walks, then the loop
+    ("index", jGroupsRes (indexGroups g (roots.filter (fun r => r < g.size))))]
   match j.getObjVal? "obs" with
   | .ok obs =>
     let (v, w) ← judgeGroups g roots obs
